@@ -10,9 +10,11 @@ package verifsync
 
 import (
 	"fmt"
+	"reflect"
 	"sort"
 	"strings"
 	"sync"
+	"unsafe"
 )
 
 // ---------------------------------------------------------------- shim types
@@ -133,10 +135,16 @@ func (m *Map) Delete(key interface{}) { m.pt("Delete"); m.m.Delete(key) }
 // Range is a scheduling point.
 func (m *Map) Range(f func(key, value interface{}) bool) { m.pt("Range"); m.m.Range(f) }
 
-// Pool replaces sync.Pool. Under exploration it is a deterministic LIFO free
-// list (always re-using the most recently returned object is a behaviour
-// sync.Pool is allowed to show and the one that exposes stale state); Get
-// and Put are scheduling points.
+// Pool replaces sync.Pool. It is the adversarial pool the sync.Pool contract
+// allows: (1) under exploration a deterministic LIFO free list (always re-using
+// the most recently returned object is a behaviour sync.Pool may show and the
+// one that exposes stale state), with Get and Put as scheduling points; (2) in
+// every mode the bytes of an object are inverted while the pool owns it (from
+// Put until the Get that hands it out again, which restores them). Code that
+// follows the contract - no access to an object after Put - cannot observe the
+// inversion; code that keeps using (or hands to its caller) memory it has
+// already Put sees garbage at once, in a single goroutine, instead of only
+// when another goroutine happens to reuse the object in between.
 type Pool struct {
 	New  func() interface{}
 	p    sync.Pool
@@ -150,6 +158,7 @@ func (p *Pool) Get() interface{} {
 		if n := len(p.free); n > 0 {
 			v := p.free[n-1]
 			p.free = p.free[:n-1]
+			flipBytes(v)
 			return v
 		}
 		if p.New != nil {
@@ -157,18 +166,94 @@ func (p *Pool) Get() interface{} {
 		}
 		return nil
 	}
-	p.p.New = p.New
-	return p.p.Get()
+	if v := p.p.Get(); v != nil {
+		flipBytes(v)
+		return v
+	}
+	if p.New != nil {
+		return p.New()
+	}
+	return nil
 }
 
 // Put is a scheduling point.
 func (p *Pool) Put(v interface{}) {
 	if rt := active; rt != nil {
 		rt.point(op_(opYield, fmt.Sprintf("sync.Pool.Put@%p", p)))
+		flipBytes(v)
 		p.free = append(p.free, v)
 		return
 	}
+	flipBytes(v)
 	p.p.Put(v)
+}
+
+// flipBytes inverts every slice (up to its capacity) and array of fixed-size
+// numbers (integers of any width, floats) that is part of the pooled object itself: the object, what it points to, and the
+// fields (exported or not) of that struct, nested structs included. Pointers
+// inside the struct are not followed. Applying it twice restores the object.
+func flipBytes(v interface{}) {
+	rv := reflect.ValueOf(v)
+	if !rv.IsValid() {
+		return
+	}
+	if rv.Kind() == reflect.Ptr {
+		if rv.IsNil() {
+			return
+		}
+		flipValue(rv.Elem(), 0)
+		return
+	}
+	if rv.Kind() == reflect.Slice {
+		flipValue(rv, 0)
+	}
+}
+
+func numeric(k reflect.Kind) bool {
+	switch k {
+	case reflect.Int, reflect.Int8, reflect.Int16, reflect.Int32, reflect.Int64,
+		reflect.Uint, reflect.Uint8, reflect.Uint16, reflect.Uint32, reflect.Uint64,
+		reflect.Float32, reflect.Float64:
+		return true
+	}
+	return false
+}
+
+func flipValue(rv reflect.Value, depth int) {
+	if depth > 4 {
+		return
+	}
+	switch rv.Kind() {
+	case reflect.Slice:
+		if !numeric(rv.Type().Elem().Kind()) || rv.IsNil() || rv.Cap() == 0 {
+			return
+		}
+		n := rv.Cap() * int(rv.Type().Elem().Size())
+		full := (*[1 << 30]byte)(unsafe.Pointer(rv.Pointer()))[:n:n]
+		for i := range full {
+			full[i] ^= 0xFF
+		}
+	case reflect.Array:
+		if !numeric(rv.Type().Elem().Kind()) || !rv.CanAddr() {
+			return
+		}
+		n := rv.Len() * int(rv.Type().Elem().Size())
+		full := (*[1 << 30]byte)(unsafe.Pointer(rv.UnsafeAddr()))[:n:n]
+		for i := range full {
+			full[i] ^= 0xFF
+		}
+	case reflect.Struct:
+		if !rv.CanAddr() {
+			return
+		}
+		for i := 0; i < rv.NumField(); i++ {
+			f := rv.Field(i)
+			switch f.Kind() {
+			case reflect.Slice, reflect.Array, reflect.Struct:
+				flipValue(reflect.NewAt(f.Type(), unsafe.Pointer(f.UnsafeAddr())).Elem(), depth+1)
+			}
+		}
+	}
 }
 
 func op_(k opKind, name string) op { return op{kind: k, name: name} }
